@@ -135,8 +135,9 @@ func (e *env) buildDriver() error {
 
 var fileLinePrefix = regexp.MustCompile(`^\S+: \d+\.\s*`)
 var digits = regexp.MustCompile(`\d+`)
-var innerVec = regexp.MustCompile(`vector<([^<>]*)>`)
+var innerVec = regexp.MustCompile(`(?:vector|array)<([^<>]*)>`)
 var innerMap = regexp.MustCompile(`map<[^<>,]*,([^<>]*)>`)
+var innerKey = regexp.MustCompile(`map<([^<>,]*),[^<>]*>`)
 
 func normDiag(d string) string {
 	if i := strings.Index(d, " | "); i >= 0 {
@@ -151,10 +152,47 @@ func normDiag(d string) string {
 	return d
 }
 
+// funcClass reduces "signature:ret(p1,out p2)" to "func:<t>" when return and
+// parameters are all of one type shape, else "func:mixed".
+func funcClass(shape string) string {
+	shape = strings.TrimPrefix(shape, "signature:")
+	open := strings.Index(shape, "(")
+	parts := []string{shape[:open]}
+	depth, start := 0, open+1
+	for i := open + 1; i < len(shape); i++ {
+		switch shape[i] {
+		case '<':
+			depth++
+		case '>':
+			depth--
+		case ',', ')':
+			if depth == 0 {
+				parts = append(parts, shape[start:i])
+				start = i + 1
+			}
+		}
+	}
+	one := ""
+	for _, p := range parts {
+		p = strings.TrimPrefix(strings.TrimSpace(p), "out ")
+		if p == "" || p == "void" {
+			continue
+		}
+		if one != "" && one != p {
+			return "func:mixed"
+		}
+		one = p
+	}
+	if one == "" {
+		one = "void"
+	}
+	return "func:" + one
+}
+
 // subsumed: shape a is shape b with one leaf wrapped into vector<> / map<k,>.
 func reductions(s string) []string {
 	var out []string
-	for _, re := range []*regexp.Regexp{innerVec, innerMap} {
+	for _, re := range []*regexp.Regexp{innerVec, innerMap, innerKey} {
 		for _, loc := range re.FindAllStringSubmatchIndex(s, -1) {
 			out = append(out, s[:loc[0]]+s[loc[2]:loc[3]]+s[loc[1]:])
 		}
@@ -195,9 +233,19 @@ func minimalShapes(shapes map[string]bool) map[string]string {
 	return to
 }
 
-func sigOfExcluded(ex []gen.Excluded) map[string][]gen.Excluded {
+func sigOfExcluded(all []gen.Excluded) map[string][]gen.Excluded {
 	shapesByStage := map[string]map[string]bool{}
-	for _, e := range ex {
+	var ex []gen.Excluded
+	for _, e := range all {
+		if e.Stage != "dependent" {
+			ex = append(ex, e)
+		}
+	}
+	for i := range ex {
+		e := &ex[i]
+		if e.UKind == "func" && strings.Contains(e.Shape, "(") {
+			e.Shape = funcClass(e.Shape)
+		}
 		if shapesByStage[e.Stage] == nil {
 			shapesByStage[e.Stage] = map[string]bool{}
 		}
@@ -246,6 +294,7 @@ type partAResult struct {
 	After      map[string]int
 	Variants   []map[string]any
 	Violations int
+	Built      bool
 }
 
 func (e *env) reportExcluded(c *gen.Corpus, flags []string, thorough bool) int {
@@ -337,6 +386,7 @@ func (e *env) partA(thorough bool) *partAResult {
 		res.Corpus = c
 		res.After = c.Counts()
 	}
+	res.Built = err == nil
 	if err != nil {
 		e.buildErr(err, "corpus", nil, thorough)
 	}
@@ -468,7 +518,7 @@ func (e *env) partB(c *gen.Corpus, thorough bool, deadline time.Time) *partBResu
 	res := &partBResult{agg: newAgg()}
 	src, small := e.prepareMalSrc(c)
 	p := &pool{driver: e.driver, srcDir: src, outRoot: filepath.Join(e.work, "mal", "out"), backstop: 10 * time.Second}
-	ctxLen, classLen := 3, 3
+	ctxLen, classLen := 3, 4
 	mut := []string{"prefix-byte", "prefix-token", "del-token", "dup-token", "repl-token", "ins-token"}
 	if thorough {
 		ctxLen, classLen = 4, 4
@@ -586,9 +636,8 @@ func (e *env) partB(c *gen.Corpus, thorough bool, deadline time.Time) *partBResu
 			e.run.InfraError("%s seen in-process (%s) but the real binary says %s on %q", sig, a.Msg, describeTool(tr, 5), firstN(string(a.Input), 200))
 			continue
 		}
-		exp := "a diagnostic and a non-zero exit"
-		e.run.Violation(sig, fmt.Sprintf("%s; %d input(s) of this class, shortest (%d bytes, %s #%d): %q; expected %s; %s",
-			a.Msg, a.Count, len(a.Input), a.Family, a.Idx, string(a.Input), exp, conf),
+		e.run.Violation(sig, fmt.Sprintf("%s; %d input(s) of this class, shortest (%d bytes, %s #%d): %q; expected a diagnostic and a non-zero exit; %s",
+			a.Msg, a.Count, len(a.Input), a.Family, a.Idx, string(a.Input), conf),
 			replayData{Kind: "malformed", Name: a.Name, Input: a.Input, Text: string(a.Input), Family: a.Family, Idx: a.Idx, Sig: sig})
 	}
 	// ---- workers that died
@@ -665,7 +714,7 @@ func min64(a, b int64) int64 {
 // wholeFiles runs every (final) corpus file once through the in-process
 // pipeline, so that a hang or crash on *valid* input is decided by the token
 // budget and not by the wall clock.
-func (e *env) wholeFiles(c *gen.Corpus) (int, int64) {
+func (e *env) wholeFiles(c *gen.Corpus, built bool) (int, int64) {
 	p := &pool{driver: e.driver, srcDir: c.TarsDir, outRoot: filepath.Join(e.work, "whole"), backstop: 300 * time.Second}
 	defer os.RemoveAll(filepath.Join(e.work, "whole"))
 	a := newAgg()
@@ -682,7 +731,7 @@ func (e *env) wholeFiles(c *gen.Corpus) (int, int64) {
 	for _, f := range a.families() {
 		n += int(f.Cases)
 		tokens += f.Tokens
-		if f.Counts["diag"] > 0 {
+		if f.Counts["diag"] > 0 && built {
 			e.run.InfraError("in-process pipeline rejects %s although the binary accepted it", f.Key)
 		}
 	}
@@ -814,7 +863,7 @@ func main() {
 		run.Finish(nil, nil)
 	}
 	t0 = time.Now()
-	wholeN, wholeTokens := e.wholeFiles(pa.Corpus)
+	wholeN, wholeTokens := e.wholeFiles(pa.Corpus, pa.Built)
 	timings["a_whole_files_in_process_s"] = time.Since(t0).Seconds()
 
 	// (c) regeneration
@@ -878,14 +927,29 @@ func main() {
 		}
 	}
 	if pb.agg != nil {
-		n := 0
-		for _, s := range pb.agg.samples {
-			if n < 6 && s.Idx > 0 && (s.Idx%7 == 3 || strings.HasPrefix(s.Family, "ctx")) && len(s.Input) < 200 {
+		// one case from each of a few families, chosen deterministically
+		ss := append([]Sample(nil), pb.agg.samples...)
+		sort.Slice(ss, func(i, j int) bool {
+			return ss[i].Family < ss[j].Family || ss[i].Family == ss[j].Family && ss[i].Idx < ss[j].Idx
+		})
+		seen := map[string]bool{}
+		for _, s := range ss {
+			fam := strings.SplitN(s.Family, ":", 2)[0]
+			if s.Family == "ctx-strings:struct:closed:len<=3" || s.Family == "ctx-strings:interface:eof:len<=4" {
+				fam = s.Family
+			}
+			if !seen[fam] && s.Idx > 40 && len(s.Input) < 240 {
+				seen[fam] = true
 				samples = append(samples, map[string]any{"kind": "malformed", "family": s.Family, "idx": s.Idx, "input": string(s.Input), "in_process": s.Outcome})
-				n++
 			}
 		}
-		for sig, a := range pb.agg.anoms {
+		var as []string
+		for sig := range pb.agg.anoms {
+			as = append(as, sig)
+		}
+		sort.Strings(as)
+		for _, sig := range as {
+			a := pb.agg.anoms[sig]
 			samples = append(samples, map[string]any{"kind": "anomaly", "signature": sig, "input": string(a.Input), "count": a.Count})
 		}
 	}
